@@ -480,13 +480,26 @@ func (e *FnEnc) loopModSet(li *loopInfo) map[string]bool {
 					if e.W.IsPure(name) || e.W.NoHeapEffect(name) {
 						continue
 					}
-					if con := e.W.ContractFor(f); con != nil {
+					if con := e.W.ContractFor(f); con != nil && !con.NoFrame {
 						// declared modifies only (+ allocation)
 						mod[AllocVar.Name] = true
 						for _, hn := range e.W.contractModHeaps(e, con, f) {
 							mod[hn] = true
 						}
 						continue
+					}
+					if inModule(f) {
+						// no provable frame: the inferred write set
+						if eff := e.W.EffectsOf(f); !eff.All {
+							mod[AllocVar.Name] = true
+							for hn := range eff.Existing {
+								mod[hn] = true
+							}
+							for hn := range eff.Alloc {
+								mod[hn] = true
+							}
+							continue
+						}
 					}
 				}
 				all = true
@@ -1395,7 +1408,11 @@ func (e *FnEnc) contractCall(v ssa.Value, con *FuncContract, callee *ssa.Functio
 		e.assume(e.frameFact(nw, old, "", mods[name]))
 	}
 	if con.NoFrame {
-		e.havocAll(con.Name+" (noframe contract)", args...)
+		if callee != nil && inModule(callee) {
+			e.havocEffects(e.W.EffectsOf(callee), con.Name+" (noframe contract)", args...)
+		} else {
+			e.havocAll(con.Name+" (noframe contract)", args...)
+		}
 	}
 	oa := e.alloc()
 	na := e.declare("alloc", "Int")
